@@ -68,6 +68,10 @@ impl<'a> Ctx<'a> {
             sub_evaluations: 0,
         }
     }
+    /// context for oracles called outside the engine (libFuzzer targets)
+    pub fn for_fuzzing(known: &'a KnownFindings, property: &'static str) -> Ctx<'a> {
+        Ctx::new(known, property)
+    }
     /// a throw-away context (same known findings) for running another property's oracle
     /// whose verdicts the caller wants to ignore
     pub fn scratch(&self) -> Ctx<'a> {
